@@ -83,6 +83,9 @@ func VH_C04_Put() {
 		{"img-layer-truncated-digest", vhImage(cd, []types.Descriptor{ld, vhDescDig(types.MediaTypeOCI1Layer, ld.Digest[:len(ld.Digest)-4])}, nil, "", nil), "image", types.MediaTypeOCI1Manifest, never},
 		{"img-layer-md5-digest", vhImage(cd, []types.Descriptor{vhDescDig(types.MediaTypeOCI1Layer, "md5:d41d8cd98f00b204e9800998ecf8427e"), ld}, nil, "", nil), "image", types.MediaTypeOCI1Manifest, never},
 		{"img-config-empty-digest", vhImage(vhDescDig(types.MediaTypeOCI1ImageConfig, ""), []types.Descriptor{ld}, nil, "", nil), "image", types.MediaTypeOCI1Manifest, never},
+		// a subject need not exist - not even be a well-formed digest: such an artifact is
+		// accepted like any other (and if it is refused, nothing may have changed)
+		{"art-subject-digest-not-parsable", vhImage(vhDesc(types.MediaTypeOCI1Empty, conf), []types.Descriptor{ld}, &types.Descriptor{MediaType: types.MediaTypeOCI1Manifest, Digest: "sha256:0123456789abcdef", Size: 7}, "application/vnd.test.at1", nil), "image", types.MediaTypeOCI1Manifest, inA},
 		// a config digest with dot segments that would resolve to the blob of repository b
 		{"img-config-digest-with-dot-segments", vhImage(types.Descriptor{MediaType: types.MediaTypeOCI1ImageConfig, Digest: digest.Digest("sha256:../../../b/blobs/sha256/" + digest.Canonical.FromBytes(other).Encoded()), Size: int64(len(other))}, []types.Descriptor{ld}, nil, "", nil), "image", types.MediaTypeOCI1Manifest, never},
 		// the image that is already stored and tagged, pushed again (retag): its layer must still exist
